@@ -74,6 +74,23 @@ ADeliverLag(r, seq, lagging) ==
      IN /\ IsPrefix(sub[r].got \o seq, ExpectedOf(log, sub[r].t0, s2[r].skip))
         /\ sub' = [s2 EXCEPT ![r].got = @ \o seq]
 
+(* ---- which changes a namespace operation puts into the log (end-to-end executions) ----
+   "Every namespace change" reaches the log: a successful create / update / delete of one
+   entry is exactly one change about that name, old and new name as they are ("" = no
+   entry on that side).  A rename of a to b is one or more changes about a and b only,
+   in which a goes and b comes (whether as one change or as a creation and a removal is
+   not prescribed).  ds = <<old, new>> of the changes the operation logged, in order. *)
+ChangeLogged(k, a, b, ds) ==
+  CASE k = "create" -> ds = << <<"", a>> >>
+    [] k = "update" -> ds = << <<a, a>> >>
+    [] k = "delete" -> ds = << <<a, "">> >>
+    [] k = "rename" -> /\ ds # <<>>
+                       /\ \A i \in 1..Len(ds) : /\ ds[i][1] \in {"", a, b} /\ ds[i][2] \in {"", a, b}
+                                                /\ ds[i] # <<"", "">>
+                       /\ \E i \in 1..Len(ds) : ds[i][1] = a
+                       /\ \E i \in 1..Len(ds) : ds[i][2] = b
+    [] OTHER -> FALSE
+
 (* ---- the statement's wording follows from the prefix formulation ---------- *)
 StrictlyIncreasing(s) == \A i \in 1..(Len(s) - 1) : Ts(s[i]) < Ts(s[i + 1])
 LogOrdered == StrictlyIncreasing(log) /\ \A i, j \in 1..Len(log) : Id(log[i]) = Id(log[j]) => i = j
